@@ -3,6 +3,8 @@
    definitions in Gen/LeafViewBox.v (regenerated from /repo on every run). *)
 From RV Require Import Model.Base Model.GeomPrims Model.ViewBoxSpec Model.ViewBoxChk Gen.LeafViewBox Proofs.ViewBox.
 From RV Require Import Gen.Units Model.SvgSize Proofs.SvgSize.
+From Coq Require Import String.
+From RV Require Import Gen.PctAxis Model.ViewportPrims Gen.LeafViewport Proofs.Viewport.
 Local Open Scope Q_scope.
 
 Theorem C17_no_skew : forall vb s,
@@ -119,6 +121,84 @@ Theorem C17_unit_px : forall n dpi fs,
   convert_abs UPx n dpi fs = convert_abs UNone n dpi fs /\ convert_abs UPx n dpi fs = Some n.
 Proof. exact unit_px. Qed.
 Print Assumptions C17_unit_px.
+
+(* --- extension round 4: the nested <svg> / <symbol> viewport (use_node.rs).  `use_node_size`, `viewbox_transform`,
+   `get_clip_rect` (Gen/LeafViewport.v) and the percent-axis table (Gen/PctAxis.v) are SOURCE-DERIVED. *)
+Theorem C17_pct_axis : pct_axis A_X = AxW /\ pct_axis A_Width = AxW /\ pct_axis A_Y = AxH /\ pct_axis A_Height = AxH.
+Proof. exact pct_axis_xywh. Qed.
+Print Assumptions C17_pct_axis.
+
+Theorem C17_viewport_size : forall n st,
+  fst (use_node_size n st) == spec_own_w n st /\ snd (use_node_size n st) == spec_own_h n st.
+Proof. exact viewport_size_spec. Qed.
+Print Assumptions C17_viewport_size.
+
+Theorem C17_viewport_transform : forall n l st,
+  match viewbox_transform n l st with
+  | Some t => exists r W H, vn_viewbox l = Some r /\ W == spec_vp_w n st /\ H == spec_vp_h n st /\ 0 < W /\ 0 < H /\
+                            t = to_transform {| vb_rect := r; vb_aspect := aspect_or_default l |} {| sw := W; sh := H |}
+  | None => vn_viewbox l = None \/ ~ (0 < spec_vp_w n st /\ 0 < spec_vp_h n st)
+  end.
+Proof. exact viewport_transform_spec. Qed.
+Print Assumptions C17_viewport_transform.
+
+Theorem C17_clip_is_viewport : forall n l st c, get_clip_rect n l st = Some c ->
+  rx c == spec_vp_x n st /\ ry c == spec_vp_y n st /\ rw c == spec_vp_w n st /\ rh c == spec_vp_h n st /\
+  0 < rw c /\ 0 < rh c /\ spec_clips n l st = true.
+Proof. exact clip_is_viewport. Qed.
+Print Assumptions C17_clip_is_viewport.
+
+Theorem C17_clip_none_iff : forall n l st,
+  get_clip_rect n l st = None <-> spec_clips n l st = false \/ ~ (0 < spec_vp_w n st /\ 0 < spec_vp_h n st).
+Proof. exact clip_none_iff. Qed.
+Print Assumptions C17_clip_none_iff.
+
+Theorem C17_viewport_one_rect : forall n l st t c, viewbox_transform n l st = Some t -> get_clip_rect n l st = Some c ->
+  exists r, vn_viewbox l = Some r /\ pos_size (r_size c) /\
+            t = to_transform {| vb_rect := r; vb_aspect := aspect_or_default l |} (r_size c) /\
+            viewport_ts n st t = ts_concat (from_translate (rx c) (ry c)) t.
+Proof. exact viewport_dims_agree. Qed.
+Print Assumptions C17_viewport_one_rect.
+
+Theorem C17_meet_inside_clip : forall n l st t c r,
+  viewbox_transform n l st = Some t -> get_clip_rect n l st = Some c -> vn_viewbox l = Some r -> pos_rect r ->
+  ar_align (aspect_or_default l) <> ANone -> ar_slice (aspect_or_default l) = false ->
+  let T := viewport_ts n st t in
+  rx c <= img_lo_x T r /\ img_hi_x T r <= rx c + rw c /\ ry c <= img_lo_y T r /\ img_hi_y T r <= ry c + rh c.
+Proof. exact meet_inside_clip. Qed.
+Print Assumptions C17_meet_inside_clip.
+
+Theorem C17_slice_covers_clip : forall n l st t c r,
+  viewbox_transform n l st = Some t -> get_clip_rect n l st = Some c -> vn_viewbox l = Some r -> pos_rect r ->
+  ar_align (aspect_or_default l) <> ANone -> ar_slice (aspect_or_default l) = true ->
+  let T := viewport_ts n st t in
+  img_lo_x T r <= rx c /\ rx c + rw c <= img_hi_x T r /\ img_lo_y T r <= ry c /\ ry c + rh c <= img_hi_y T r.
+Proof. exact slice_covers_clip. Qed.
+Print Assumptions C17_slice_covers_clip.
+
+Theorem C17_none_fills_clip : forall n l st t c r,
+  viewbox_transform n l st = Some t -> get_clip_rect n l st = Some c -> vn_viewbox l = Some r -> pos_rect r ->
+  ar_align (aspect_or_default l) = ANone ->
+  let T := viewport_ts n st t in
+  img_lo_x T r == rx c /\ img_hi_x T r == rx c + rw c /\ img_lo_y T r == ry c /\ img_hi_y T r == ry c + rh c.
+Proof. exact none_fills_clip. Qed.
+Print Assumptions C17_none_fills_clip.
+
+(* non-vacuity: a `use` of width 50% x 40 on a 600x400 viewport referencing a symbol with a viewBox: both the
+   transform and the clip rectangle exist, the viewport is 300 x 40 at (10, 20) *)
+Example C17_viewport_nv :
+  let u := {| vn_is_svg := false; vn_x := Some (mk_len 10 UNone); vn_y := Some (mk_len 20 UPx);
+              vn_width := Some (mk_len 50 UPercent); vn_height := Some (mk_len 40 UNone);
+              vn_overflow := None; vn_viewbox := None; vn_aspect := None |} in
+  let s := {| vn_is_svg := false; vn_x := None; vn_y := None; vn_width := None; vn_height := None;
+              vn_overflow := Some "hidden"%string; vn_viewbox := Some {| rx := 0; ry := 0; rw := 30; rh := 8 |};
+              vn_aspect := None |} in
+  let st := {| st_view_box := {| rx := 0; ry := 0; rw := 600; rh := 400 |}; st_use_size := (None, None); st_dpi := 96; st_fs := 12 |} in
+  match viewbox_transform u s st, get_clip_rect u s st with
+  | Some t, Some c => Qeq_bool (rx c) 10 && Qeq_bool (ry c) 20 && Qeq_bool (rw c) 300 && Qeq_bool (rh c) 40 && Qeq_bool (t_sx t) 5 = true
+  | _, _ => False
+  end.
+Proof. vm_compute. reflexivity. Qed.
 
 Example C17_size_nv :
   fst (resolve_svg_size (Some {| l_num := 2; l_unit := UIn |}) None
